@@ -3,7 +3,7 @@
    wfv : contexts have strictly ascending keys at every depth (a BTreeMap in the code);
    ordered_pair a b : a and b are both numbers, both strings or both dates. *)
 From Coq Require Import List NArith ZArith Bool.
-From DV Require Import C09.Values C09.Model C09.Proofs.
+From DV Require Import C09.Values C09.Model C09.Proofs C09.Utf8.
 Import ListNotations.
 Open Scope Z_scope.
 
@@ -44,6 +44,34 @@ Proof. exact in_range_iff_conj. Qed.
 Theorem C09_string_order : forall a b c,
   lcmp a a = Eq /\ (lcmp a b = Eq -> a = b) /\ lcmp b a = CompOpp (lcmp a b) /\ (lcmp a b = Lt -> lcmp b c = Lt -> lcmp a c = Lt).
 Proof. exact string_order. Qed.
+(* Rust compares the UTF-8 bytes of two strings (`String::cmp`): that is the same order.
+   utf8 c : the 1..4 bytes of one scalar value; encode : the bytes of a string; cmp_list : lexicographic order of
+   lists of N (the byte-slice order); scalar c : c is 0..0x10FFFF and not a surrogate (a Rust `char`);
+   lcmp : the string comparison of the model.  For all strings of any length. *)
+Theorem C09_utf8_order_is_code_point_order : forall a b, Forall scalar a -> Forall scalar b ->
+  cmp_list (encode a) (encode b) = cmp_list a b /\ cmp_list a b = lcmp a b.
+Proof. exact (fun a b Ha Hb => conj (utf8_order_is_code_point_order a b Ha Hb) (eq_sym (lcmp_is_cmp_list a b))). Qed.
+(* the two lemmas behind it: one code point decides whatever follows (monotone + no encoding is a prefix of another) *)
+Theorem C09_utf8_first_difference_decides : forall x y r s, (x < 0x110000)%N -> (y < 0x110000)%N ->
+  cmp_list (utf8 x ++ r) (utf8 y ++ s) = match N.compare x y with Eq => cmp_list r s | c => c end.
+Proof. exact utf8_cmp. Qed.
+Theorem C09_utf8_prefix_free : forall x y r s, (x < 0x110000)%N -> (y < 0x110000)%N -> utf8 x ++ r = utf8 y ++ s -> x = y /\ r = s.
+Proof. exact utf8_prefix_free. Qed.
+(* utf8 is the well-known encoding: bytes, leading byte classes, continuation bytes 0x80..0xBF, sample values *)
+Theorem C09_utf8_shape : forall c, (c < 0x110000)%N -> exists b t, utf8 c = b :: t /\
+  ((b < 0x80)%N \/ (0xC2 <= b)%N) /\ (b < 0xF5)%N /\ Forall (fun x => (0x80 <= x)%N /\ (x < 0xC0)%N) t /\
+  length t = (if (b <? 0x80)%N then 0%nat else if (b <? 0xE0)%N then 1%nat else if (b <? 0xF0)%N then 2%nat else 3%nat).
+Proof. exact utf8_lead. Qed.
+Example C09_utf8_samples :
+  map utf8 [0; 0x7F; 0x80; 0xE9; 0x7FF; 0x800; 0x20AC; 0xD7FF; 0xE000; 0xFFFF; 0x10000; 0x1F600; 0x10FFFF]%N =
+  [[0]; [0x7F]; [0xC2; 0x80]; [0xC3; 0xA9]; [0xDF; 0xBF]; [0xE0; 0xA0; 0x80]; [0xE2; 0x82; 0xAC]; [0xED; 0x9F; 0xBF];
+   [0xEE; 0x80; 0x80]; [0xEF; 0xBF; 0xBF]; [0xF0; 0x90; 0x80; 0x80]; [0xF0; 0x9F; 0x98; 0x80]; [0xF4; 0x8F; 0xBF; 0xBF]]%N.
+Proof. exact utf8_samples. Qed.
+Example C09_utf8_nonvacuous :
+  Forall scalar [0xFFFF]%N /\ Forall scalar [0x10000; 0x41]%N /\
+  cmp_list (encode [0xFFFF]%N) (encode [0x10000; 0x41]%N) = Lt /\ lcmp [0xFFFF]%N [0x10000; 0x41]%N = Lt /\
+  cmp_list (encode [0xE9]%N) (encode [0x7A; 0x7A]%N) = Gt.
+Proof. exact utf8_order_nonvacuous. Qed.
 (* numbers are compared by value: the scale (trailing zeros) does not matter *)
 Theorem C09_number_scale : forall c e c2 e2 k, 0 <= k ->
   ncmp (c * 10 ^ k) (e - k) (c2 * 10 ^ k) (e2 - k) = ncmp c e c2 e2 /\ ncmp (c * 10) (e - 1) c e = Eq.
@@ -86,6 +114,12 @@ Print Assumptions C09_between_is_conjunction.
 Print Assumptions C09_in_range_is_conjunction.
 Print Assumptions C09_string_order.
 Print Assumptions C09_number_scale.
+Print Assumptions C09_utf8_order_is_code_point_order.
+Print Assumptions C09_utf8_first_difference_decides.
+Print Assumptions C09_utf8_prefix_free.
+Print Assumptions C09_utf8_shape.
+Print Assumptions C09_utf8_samples.
+Print Assumptions C09_utf8_nonvacuous.
 Print Assumptions C09_eq_orig_null_refuted.
 Print Assumptions C09_eq_orig_context_refuted.
 Print Assumptions C09_far_dates_orig_refuted.
